@@ -107,6 +107,12 @@ def check(ctx, replay=None):
     for bi in range(nb):
         mod = abigen.Module(rng)
         methods = abigen.gen_methods(mod, 40 if ctx.quick() else 60, rng)
+        # several directly passed &str in one method: each of them must be validated
+        for j, ps in enumerate([[("a", ("str", "utf8", "ref")), ("b", ("str", "utf8", "ref"))],
+                                [("a", ("str", "utf8", "ref")), ("raw", ("str", "dstr", "ref")), ("b", ("str", "utf8", "ref")), ("c", ("str", "utf8", "ref"))],
+                                [("n", ("prim", "u8")), ("s", ("str", "utf8", "ref")), ("t", ("str", "utf8", "box"))]]):
+            r = ("prim", "u16") if j != 1 else ("res", ("prim", "i8"), ("enum", list(mod.enums)[0]))
+            methods.append({"name": f"strs{j}", "self": None if j else "ref", "params": ps, "ret": r, "write": False, "rets": [mod.rand_value(r) for _ in range(3)]})
         src = abigen.rust_source(mod, methods)
         d, lib, p = e2e.bridge_crate(f"c02b{bi % 2}", src)
         if lib is None:
@@ -114,7 +120,7 @@ def check(ctx, replay=None):
         q = e2e.run_tool("cpp", os.path.join(d, "src/lib.rs"), os.path.join(d, "out_cpp"))
         if q.returncode != 0:
             violate("e2e:tool-cpp", {"lib_rs": src[:5000], "what": "diplomat-tool cpp failed: " + q.stderr[-1200:]}); continue
-        calls = abigen.cpp_scenarios(mod, methods, rng)
+        calls = abigen.cpp_scenarios(mod, methods, rng, per_method=4)
         open(os.path.join(d, "drv.cpp"), "w").write(abigen.cpp_driver(mod, methods, calls))
         for std in (["c++17"] if ctx.quick() else ["c++17", "c++20"]):
             stds_used.add(std)
